@@ -17,7 +17,7 @@ CHECKS = {
              "written in any mode derives only from that filtered result; Aligner.align sends the segments of all peaks "
              "through the injected AlignmentSegmentConflictResolver(SegmentChainer(SequentialityScorer)); the resolver "
              "walks {(i,i+1)} over the whole chain and writes both results back to their own slots; per-peak "
-             "de-duplication is one-per-key by query label and by reference label keeping the minimum distance. Added after the seeded rounds: second-pass label numbers refer to the whole query; overlapping segments are cut at indices from their own index tables and the conflict test sees every overlap (as C15.5/C15.6); records are joined only with equal orientation and reference (as C08.4). Round 3: the chainer refuses pairs overlapping by more than half (as C14.2). Round 4: a joined record is made only of segments resolved against each other (C01.10); the cut axis of conflict resolution follows the two peak positions and never the strand. Round 5: what is trimmed comes from the own sub-run (C01.11). Round 6: the conflicting sub-run handed to the trim reaches the end of the overlap whatever unpaired labels lie in it, and the label tables the cut is counted in hold every label of their side - pairs and the unpaired labels wrapped in ScoredNotAlignedPosition (C01.12, C01.13, as C15.4 / C15.8). Round 7: a memo in the alignment chain is keyed by every input of what it remembers (C01.14). Round 8: the pairwise pass has no exit that depends on what a segment looks like and its index generator is not a stride-2 zip; a one-per-key selection written as a filter on the smallest distance (all ties kept) is reported; label-table indexes are list indexes (as C15.8); the chainer returns un-chained segments only when at most one is non-empty (C01.15, as C14.4). Round 9: ids and lengths reach AlignmentResultRow.create in the parameters of their own role at every call site (C01.16); the overlap test has no path that answers 'no overlap' without comparing the later start with the earlier end. Round 10: records are frozen also through a local alias of their list (C01.17); the scorer returns one scored position per position (C01.18); a chain member emptied by a resolution does not shield its neighbours (C01.19: violated by the pinned code, listed as known finding K2 - KNOWN-FINDING line, exit 0). Round 11: a joined record is handed back only under a test of its neighbouring pairs on both sequences (C01.20; fix F12).",
+             "de-duplication is one-per-key by query label and by reference label keeping the minimum distance. Added after the seeded rounds: second-pass label numbers refer to the whole query; overlapping segments are cut at indices from their own index tables and the conflict test sees every overlap (as C15.5/C15.6); records are joined only with equal orientation and reference (as C08.4). Round 3: the chainer refuses pairs overlapping by more than half (as C14.2). Round 4: a joined record is made only of segments resolved against each other (C01.10); the cut axis of conflict resolution follows the two peak positions and never the strand. Round 5: what is trimmed comes from the own sub-run (C01.11). Round 6: the conflicting sub-run handed to the trim reaches the end of the overlap whatever unpaired labels lie in it, and the label tables the cut is counted in hold every label of their side - pairs and the unpaired labels wrapped in ScoredNotAlignedPosition (C01.12, C01.13, as C15.4 / C15.8). Round 7: a memo in the alignment chain is keyed by every input of what it remembers (C01.14). Round 8: the pairwise pass has no exit that depends on what a segment looks like and its index generator is not a stride-2 zip; a one-per-key selection written as a filter on the smallest distance (all ties kept) is reported; label-table indexes are list indexes (as C15.8); the chainer returns un-chained segments only when at most one is non-empty (C01.15, as C14.4). Round 9: ids and lengths reach AlignmentResultRow.create in the parameters of their own role at every call site (C01.16); the overlap test has no path that answers 'no overlap' without comparing the later start with the earlier end. Round 10: records are frozen also through a local alias of their list (C01.17); the scorer returns one scored position per position (C01.18); a chain member emptied by a resolution does not shield its neighbours (C01.19: violated by the pinned code, listed as known finding K2 - KNOWN-FINDING line, exit 0). Round 11: a joined record is handed back only under a test of its neighbouring pairs on both sequences (C01.20; fix F12). Round 12: the collinearity test has to be implied by the condition under which the joined record is handed back, and the tested record is the returned one (C01.20).",
         note="That the final matching is one-to-one and collinear for every geometry is declined (value-level; the property "
              "text itself records fuzzing counter-examples); two constructs are reported as observations only.",
         tech="static analysis: source->sanitiser->sink flow per mode (R-FLOW), path/term rules on the resolver loop (R-PATH/R-TERM), typed constructor chain (R-TABLE)",
@@ -27,14 +27,14 @@ CHECKS = {
              "written from the attribute the reader stores; column-name/attribute roles agree; XmapEntryID is 1..n; "
              "AlignmentResultRow.create takes ref start/end from the first/last pair of the ascending pair list and exchanges "
              "query start/end on the reverse strand; second-pass fragments keep id, full length and the label offset of what "
-             "was cut; label numbering honours shift on both strands with coordinates mirrored about length-1. Also: coordinates reach the records at full precision and follow the trim formulae (as C17.5/C17.6). Round 4: lengths come from the molecule's own end-marker row (C02.8, as C17.2); joins only on the same reference and strand (C02.9, as C08.4); second-pass fragments are aligned as cut (C02.4). Round 5: records are built by AlignmentResultRow.create only (C02.10). Round 6: a record is not altered after its header was derived - no store into segments / alignedPairs or a header field outside a constructor (C02.11); the Orientation column is the strand flag, not a comparison of coordinates. Round 7: a joined record carries the strand of its parts (C02.12); a memoised trim is keyed by the label list. Round 8: the frame is not sorted, sampled or reduced between the setting of its 1..n index and to_csv (C02.2); records are frozen for the diagnostics too (the plotters run inside the worker, on the row that is written later); no row of the CMAP table is dropped, repeated or merged while reading (C02.13, as C17.9). Round 9: Aligner.align hands the maps' own ids and lengths to the record (C02.14); a class with custom pickling carries every constructor field (C02.15). Round 10: a record's list changed in place through a local that is the list itself is reported (C02.11). Round 11: the coordinator that serves both passes hands each molecule to its worker as it received it (C02.4).",
+             "was cut; label numbering honours shift on both strands with coordinates mirrored about length-1. Also: coordinates reach the records at full precision and follow the trim formulae (as C17.5/C17.6). Round 4: lengths come from the molecule's own end-marker row (C02.8, as C17.2); joins only on the same reference and strand (C02.9, as C08.4); second-pass fragments are aligned as cut (C02.4). Round 5: records are built by AlignmentResultRow.create only (C02.10). Round 6: a record is not altered after its header was derived - no store into segments / alignedPairs or a header field outside a constructor (C02.11); the Orientation column is the strand flag, not a comparison of coordinates. Round 7: a joined record carries the strand of its parts (C02.12); a memoised trim is keyed by the label list. Round 8: the frame is not sorted, sampled or reduced between the setting of its 1..n index and to_csv (C02.2); records are frozen for the diagnostics too (the plotters run inside the worker, on the row that is written later); no row of the CMAP table is dropped, repeated or merged while reading (C02.13, as C17.9). Round 9: Aligner.align hands the maps' own ids and lengths to the record (C02.14); a class with custom pickling carries every constructor field (C02.15). Round 10: a record's list changed in place through a local that is the list itself is reported (C02.11). Round 11: the coordinator that serves both passes hands each molecule to its worker as it received it (C02.4). Round 12: a joined record is handed back only if it is collinear (C02.16, as C01.20).",
         note="Numerical agreement of written values with the CMAP text is declined.",
         tech="static analysis: table agreement (R-TABLE), term normal forms under strand facts (R-TERM), argument/role lint (R-ROLE)",
         ref="DESIGN.md section 4 C02"),
     "C03": dict(
         text="Static path rule: for a non-empty operation list every syntactic path through the run-length aggregator emits at "
              "least one run (loops unrolled 0/1/2 with a nullness/emptiness store), the operation walk covers first..last "
-             "reference label inclusive, and '' is returned only for a record without pairs. Also: one walk over all pairs of the record, insertion run = |difference of query label numbers| - 1 on both strands, the HitEnum cell written for a record is that record's own string, records are joined only within one strand and reference. Round 3: a joined record holds only the two resolved segments and the resolver's pairwise pass (as C08.6/C01.3); the first run starts at hits[0]. Round 4: sub-runs cut per own index table (C03.9); second-pass fragments aligned as cut, one label numbering per joined record (C03.10). Round 5: positions ordered by coordinate (C03.11); de-duplication groups over a sort by the same key (C03.12). Round 6: the label tables of conflict resolution hold every label of their side (C03.13, as C15.8). Round 7: fragment label numbers count from the whole query on both strands (C03.14, as C02.5). Round 8: a record is not altered after its header was derived, by the plotters either (C03.15, as C02.11); only neighbours in a chain can overlap (C03.16, as C14.2). Round 9: the conflict test sees every overlap of neighbouring chain members (C03.17, as C15.6). Round 10: fragment offsets count labels, they are not looked up by coordinate (C03.18, as C02.4). Round 11: records are copied only through AlignmentResultRow.create - a raw copy loses the strand (C03.19).",
+             "reference label inclusive, and '' is returned only for a record without pairs. Also: one walk over all pairs of the record, insertion run = |difference of query label numbers| - 1 on both strands, the HitEnum cell written for a record is that record's own string, records are joined only within one strand and reference. Round 3: a joined record holds only the two resolved segments and the resolver's pairwise pass (as C08.6/C01.3); the first run starts at hits[0]. Round 4: sub-runs cut per own index table (C03.9); second-pass fragments aligned as cut, one label numbering per joined record (C03.10). Round 5: positions ordered by coordinate (C03.11); de-duplication groups over a sort by the same key (C03.12). Round 6: the label tables of conflict resolution hold every label of their side (C03.13, as C15.8). Round 7: fragment label numbers count from the whole query on both strands (C03.14, as C02.5). Round 8: a record is not altered after its header was derived, by the plotters either (C03.15, as C02.11); only neighbours in a chain can overlap (C03.16, as C14.2). Round 9: the conflict test sees every overlap of neighbouring chain members (C03.17, as C15.6). Round 10: fragment offsets count labels, they are not looked up by coordinate (C03.18, as C02.4). Round 11: records are copied only through AlignmentResultRow.create - a raw copy loses the strand (C03.19). Round 12: C03.20 (as C01.20); the conflicting sub-run of a segment runs over unpaired labels up to the first pair beyond the window (C03.21, as C15.4).",
         note="Assumes HitEnum members are truthy. Replay-equivalence of HitEnum and the pairs is declined.",
         tech="static analysis: path enumeration with emptiness/nullness store (R-PATH) + term normal forms",
         ref="DESIGN.md section 4 C03"),
@@ -44,7 +44,7 @@ CHECKS = {
              "are used per pass; AlignmentSegment/ScoredAlignedPair/ScoredNotAlignedPosition/AlignmentResultRow raw "
              "constructors are called only by their factories, segment score = sum over exactly the stored positions, no "
              "store to positions/segmentScore outside constructors and no in-place mutation after construction; row "
-             "confidence = sum of the stored segments' scores; pair score formula; per-peak pipeline uses that peak's diagonal. Also: every label of the window is scored exactly once (unpaired = complement of the kept pairs, as C12.3) and overlap labels are scored in one segment only (pairwise pass, as C01.3). Round 3: de-duplication over pairs sorted by the grouping key (as C12.5). Round 4: joined record made of resolved segments only (C04.9); sub-runs cut per own index table (C04.10). Round 5: option values reach the components unchanged (C04.1 :altered); slice window (C04.11). Round 6: label tables complete (C04.12, as C15.8). Round 7: a wired component stores its configured parameter unchanged (no `p or DEFAULT`, abs, max); fragment numbering (C04.13). Round 8: the Confidence cell is written with at least two decimals (C04.14); what a Peak stores is the score / position it was given (as C16.8). Round 9: conflict resolution removes exactly the positions it is told to (C04.15); joins only on one reference and strand (C04.16); lengths reach the record unconverted (C04.17). Round 10: the scorer is total (C04.18); no join skips the overlap guard (C04.19); the maps hold every label (C04.20); no configurable parameter is left to a default in the factory or at a coordinator call site. Round 11: second-pass fragments reach the aligner as they were cut (C04.21, as C02.4).",
+             "confidence = sum of the stored segments' scores; pair score formula; per-peak pipeline uses that peak's diagonal. Also: every label of the window is scored exactly once (unpaired = complement of the kept pairs, as C12.3) and overlap labels are scored in one segment only (pairwise pass, as C01.3). Round 3: de-duplication over pairs sorted by the grouping key (as C12.5). Round 4: joined record made of resolved segments only (C04.9); sub-runs cut per own index table (C04.10). Round 5: option values reach the components unchanged (C04.1 :altered); slice window (C04.11). Round 6: label tables complete (C04.12, as C15.8). Round 7: a wired component stores its configured parameter unchanged (no `p or DEFAULT`, abs, max); fragment numbering (C04.13). Round 8: the Confidence cell is written with at least two decimals (C04.14); what a Peak stores is the score / position it was given (as C16.8). Round 9: conflict resolution removes exactly the positions it is told to (C04.15); joins only on one reference and strand (C04.16); lengths reach the record unconverted (C04.17). Round 10: the scorer is total (C04.18); no join skips the overlap guard (C04.19); the maps hold every label (C04.20); no configurable parameter is left to a default in the factory or at a coordinator call site. Round 11: second-pass fragments reach the aligner as they were cut (C04.21, as C02.4). Round 12: the positions handed to the segments factory are computed from the peak they are handed over with (C04.22).",
         note="The numerical identity Confidence = sum(...) recomputed from raw maps and |offset| <= maxPairDistance are declined.",
         tech="static analysis: who-may-construct / who-may-write (R-EFFECT), best-name-match wiring (R-TABLE/R-ROLE), term normal forms",
         ref="DESIGN.md section 4 C04"),
@@ -61,7 +61,7 @@ CHECKS = {
         text="Static error-discipline rules on everything reachable from Program.__init__/run and on the XMAP reader: unpacked "
              "zip(*xs) needs a dominating non-emptiness guard, apply(...).tolist() in the readers needs an .empty guard, "
              "identity-free reductions need default=/initial= or a guard, the Optional worker result is None-tested before "
-             "dereference, the too-long-query early return dominates the 'valid' correlations. Also: argpartition under k < len, empty-row filter, row-header coordinates are exact label coordinates (list.index lookups), additional file names are built by a total function (os.path.splitext). Round 3: no set over a class with __eq__ but no __hash__; positive join-score denominators (as C14.1). Round 4: no array or table survives from one molecule to the next (C07.G13); attribute reads under an isinstance guard exist on every guarded class (C07.G14, contradiction rule). Round 5: the cross-correlation of a reference window is computed only for a non-empty window vector (C07.G15; defect F6, fixed in f18f884). Round 6: the result of groupby().apply() is not iterated without an .empty guard; numpy.convolve / correlate only over vectors known non-empty. Withdrawn after the cross-property audit: C07.G13 (persistent state as a cause of aborts - a run-time matter; C09.3 / C10.1 decide persistent state). Round 7: the pool size never shrinks to 0 with the number of molecules (C07.G18); a correlation is divided only by the same correlation of vectors of the same lengths (C07.G19); negative kth accepted in G7. All checks: an unmodelled decorator on a function or class of src/ or sv/ gives ANALYSIS-ERROR. Round 8: the command-line options keep the type / choices / nargs / action of the pinned interface (C07.G20): an option that parses to another type makes a legitimate value abort or mean something else. Round 9: a row's molecule is looked up by id in the whole query list (C07.G21, as C10.2); the row lists of resolve hold rows only (C07.G22). Round 10: directories are created with exist_ok=True (C07.G23); a None-default constructor field that is used as a number is bound to a number at every construction site (C07.G24; defect F7, fixed in ec16595). Round 11: a reader that rewinds after sniffing rewinds before it when a handler keeps the handle (G25; fix F10); a bare nargs='?' flag yields const (G26; fix F11); pop loops test emptiness in their own condition (G27; fix F13); header query coordinates are looked up in the label list on the forward strand only (G28); a joined record names its parts' maps (G29).",
+             "dereference, the too-long-query early return dominates the 'valid' correlations. Also: argpartition under k < len, empty-row filter, row-header coordinates are exact label coordinates (list.index lookups), additional file names are built by a total function (os.path.splitext). Round 3: no set over a class with __eq__ but no __hash__; positive join-score denominators (as C14.1). Round 4: no array or table survives from one molecule to the next (C07.G13); attribute reads under an isinstance guard exist on every guarded class (C07.G14, contradiction rule). Round 5: the cross-correlation of a reference window is computed only for a non-empty window vector (C07.G15; defect F6, fixed in f18f884). Round 6: the result of groupby().apply() is not iterated without an .empty guard; numpy.convolve / correlate only over vectors known non-empty. Withdrawn after the cross-property audit: C07.G13 (persistent state as a cause of aborts - a run-time matter; C09.3 / C10.1 decide persistent state). Round 7: the pool size never shrinks to 0 with the number of molecules (C07.G18); a correlation is divided only by the same correlation of vectors of the same lengths (C07.G19); negative kth accepted in G7. All checks: an unmodelled decorator on a function or class of src/ or sv/ gives ANALYSIS-ERROR. Round 8: the command-line options keep the type / choices / nargs / action of the pinned interface (C07.G20): an option that parses to another type makes a legitimate value abort or mean something else. Round 9: a row's molecule is looked up by id in the whole query list (C07.G21, as C10.2); the row lists of resolve hold rows only (C07.G22). Round 10: directories are created with exist_ok=True (C07.G23); a None-default constructor field that is used as a number is bound to a number at every construction site (C07.G24; defect F7, fixed in ec16595). Round 11: a reader that rewinds after sniffing rewinds before it when a handler keeps the handle (G25; fix F10); a bare nargs='?' flag yields const (G26; fix F11); pop loops test emptiness in their own condition (G27; fix F13); header query coordinates are looked up in the label list on the forward strand only (G28); a joined record names its parts' maps (G29). Round 12: no next(<iterator>) without a default in a -D message handler - StopIteration out of a task ends the result stream silently (G30; fix F14).",
         note="Hand-written summaries of which external calls raise on empty input (listed in evidence assumptions); a frozen "
              "exception table of named lookups with reasons. General exception freedom is declined.",
         tech="static analysis: idiom table (R-GUARD) judged on enumerated paths with guard facts; call-graph reachability",
@@ -72,7 +72,7 @@ CHECKS = {
              "file numbers and the <stem>_<n><ext> name; AlignedRest True exactly for second-pass rows; join eligibility = "
              "same orientation, same reference, gap <= maxDifference (inclusive) wired to --maxDifference; resolve consumes "
              "every group member exactly once; the joined row is conflict resolution of one segment of each part with "
-             "the earlier part on the left and identity fields of the first part; nothing is carried over into it that was not resolved there (C08.6); every segment of both parts must reach it (C08.10, the structural necessary condition of 'joined == union when the union is valid': violated by the pinned code, listed as known finding K1 - KNOWN-FINDING line, exit 0). Also: resolve receives exactly the reported first-pass ++ second-pass lists; saveAdditionalOutput writes exactly the rows it is given (no per-query filter). Round 3: the join returns a new record, leaves its parts untouched and holds only the two resolved segments. Round 5: no branch on a whole-run row list (C08.11); no in-place change of an aliased row list (C08.12). Round 6: the second pass re-aligns against the references as received (C08.13). Round 7: a record keeps the resolver's segments in the resolver's order (C08.14). Round 8: every path of saveAdditionalOutput writes its file (C08.8 :always-written): a file left by an earlier run under the same name otherwise contradicts the main file beside it. Round 9: the join compares label coordinates, not label numbers (C08.15); second-pass fragments are aligned as cut (C08.16); a group is never appended as one element. Round 10: an additional file name built by str.replace on the output name is reported. Round 11: the AlignedRest column is read from each record (C08.3); records are not altered in place between the worker and the join (C08.17); the additional file is never the main stream (C08.2).",
+             "the earlier part on the left and identity fields of the first part; nothing is carried over into it that was not resolved there (C08.6); every segment of both parts must reach it (C08.10, the structural necessary condition of 'joined == union when the union is valid': violated by the pinned code, listed as known finding K1 - KNOWN-FINDING line, exit 0). Also: resolve receives exactly the reported first-pass ++ second-pass lists; saveAdditionalOutput writes exactly the rows it is given (no per-query filter). Round 3: the join returns a new record, leaves its parts untouched and holds only the two resolved segments. Round 5: no branch on a whole-run row list (C08.11); no in-place change of an aliased row list (C08.12). Round 6: the second pass re-aligns against the references as received (C08.13). Round 7: a record keeps the resolver's segments in the resolver's order (C08.14). Round 8: every path of saveAdditionalOutput writes its file (C08.8 :always-written): a file left by an earlier run under the same name otherwise contradicts the main file beside it. Round 9: the join compares label coordinates, not label numbers (C08.15); second-pass fragments are aligned as cut (C08.16); a group is never appended as one element. Round 10: an additional file name built by str.replace on the output name is reported. Round 11: the AlignedRest column is read from each record (C08.3); records are not altered in place between the worker and the join (C08.17); the additional file is never the main stream (C08.2). Round 12: no name read in the group loop of AlignmentResults.resolve is bound only on some paths of the same iteration (C08.18).",
         note="Byte equality of files across runs is declined; of 'union valid => joined == union' only the necessary condition C08.10 (no segment of a part is dropped) is decided, not the value-level equality.",
         tech="static analysis: constant propagation of the mode through enumerated paths (R-PATH), term equality of mode outputs (R-TERM), exactly-one-consume (R-PATH)",
         ref="DESIGN.md section 4 C08"),
@@ -100,7 +100,7 @@ CHECKS = {
              "about length-1; the chainer's join score is strand independent (query distance = current start - previous end on both strands, since mirrored coordinates ascend); the row header exchanges query "
              "start/end on '-'; the reverse vector is the complete reversal of the forward query vector (reference never "
              "reversed); both strands go through getInitialAlignment with identical arguments and are offered independently; "
-             "the strand flag is carried unchanged through refine, pairing, segments and the result row. Also: label positions are ordered by coordinate only (no order=True on PositionWithSiteId); on every path of the seed generator each strand is offered by the same rule from its own correlation only; trim formulae. Round 3: label rows selected by channel (as C17.2); the requested window reaches the vectoriser unchanged; role lint over optical_map.py. Round 4: candidates ordered by the strand-symmetric peak score on every return path of the selection (C11.9). Round 5: comparators by coordinate (C11.10); no strand-dependent tie-break between equally confident candidates (C11.11). Round 6: unpaired labels are found by membership, not label-number arithmetic (C11.12); no pre-test on label numbers in front of the overlap test (C11.13); Orientation is the strand flag (C11.14). Round 7: a segment's aligned pairs are not ordered by label number and the chainer's pre-order key does not read the strand (C11.15). Round 8: a Peak stores position and score unconverted on both strands (C11.16, as C16.8). Round 9: nothing is padded or cut between vectorisation and blur (C11.17, as C16.6); conflict resolution removes positions by identity (C11.18, as C15.1). Round 10: a join is refused on coordinates only (C11.19, as C14.2). Round 11: header coordinates of a '-' record are never looked up as label coordinates (C11.20); every query reaches the aligner trimmed (C11.21).",
+             "the strand flag is carried unchanged through refine, pairing, segments and the result row. Also: label positions are ordered by coordinate only (no order=True on PositionWithSiteId); on every path of the seed generator each strand is offered by the same rule from its own correlation only; trim formulae. Round 3: label rows selected by channel (as C17.2); the requested window reaches the vectoriser unchanged; role lint over optical_map.py. Round 4: candidates ordered by the strand-symmetric peak score on every return path of the selection (C11.9). Round 5: comparators by coordinate (C11.10); no strand-dependent tie-break between equally confident candidates (C11.11). Round 6: unpaired labels are found by membership, not label-number arithmetic (C11.12); no pre-test on label numbers in front of the overlap test (C11.13); Orientation is the strand flag (C11.14). Round 7: a segment's aligned pairs are not ordered by label number and the chainer's pre-order key does not read the strand (C11.15). Round 8: a Peak stores position and score unconverted on both strands (C11.16, as C16.8). Round 9: nothing is padded or cut between vectorisation and blur (C11.17, as C16.6); conflict resolution removes positions by identity (C11.18, as C15.1). Round 10: a join is refused on coordinates only (C11.19, as C14.2). Round 11: header coordinates of a '-' record are never looked up as label coordinates (C11.20); every query reaches the aligner trimmed (C11.21). Round 12: the query vector of both correlations is vectorised without a window (C11.22).",
         note="The end-to-end symmetry (same pairs renumbered, same confidence) additionally needs binning symmetry and identical "
              "floating-point peaks; declined.",
         tech="static analysis: mirror-symmetry of sibling branches as term normal forms (R-TERM), call-site argument equality",
@@ -129,7 +129,7 @@ CHECKS = {
              "(both scoring variants) under multiplier >= 0, constant folding shows exactly 0 for a contiguous join; -inf is "
              "returned iff min(refLen+2refDist, qLen+2qDist) < 0; reference and query distance are current start - previous end on both strands; the DP "
              "re-initialises to a finite value, records predecessors only on strict improvement over a proper prefix, adds "
-             "the own score once, back-tracks until None and passes empty segments through via complementary predicates. Also: early returns of the chainer keep all empty segments; the scorer writes no state while scoring and never uses id(). Round 3: the join score is judged per return path (a finite score only after the overlap condition was refuted); the pre-order key increases with all four coordinates on both strands. The DP step is judged on the path summary of one outer iteration (0, 1, 2 predecessors explored; the values left in cumulated[i] / previous[i] compared with the recurrence on the same test outcomes), so accumulators may be locals. Round 4: no early return hands back un-chained segments unless at most one is non-empty; the chainer keeps nothing between calls (C14.7). Round 5: the chainer's scorer is built from --segmentJoinMultiplier / --sequentialityScore in that order (C14.8). Round 6: the borrowed wiring and state rules are limited to the chainer's own constructs; -inf is recognised through import aliases and module constants; the table-filling loop is also found in a new helper of the same shape. Round 7: the strand-dependent form of the pre-order key is a construct of its own (C14.6). Round 8: --sequentialityScore / --segmentJoinMultiplier keep the pinned option types (C14.9). Round 11: (key, segment) tuples are never sorted without a key function (C14.10).",
+             "the own score once, back-tracks until None and passes empty segments through via complementary predicates. Also: early returns of the chainer keep all empty segments; the scorer writes no state while scoring and never uses id(). Round 3: the join score is judged per return path (a finite score only after the overlap condition was refuted); the pre-order key increases with all four coordinates on both strands. The DP step is judged on the path summary of one outer iteration (0, 1, 2 predecessors explored; the values left in cumulated[i] / previous[i] compared with the recurrence on the same test outcomes), so accumulators may be locals. Round 4: no early return hands back un-chained segments unless at most one is non-empty; the chainer keeps nothing between calls (C14.7). Round 5: the chainer's scorer is built from --segmentJoinMultiplier / --sequentialityScore in that order (C14.8). Round 6: the borrowed wiring and state rules are limited to the chainer's own constructs; -inf is recognised through import aliases and module constants; the table-filling loop is also found in a new helper of the same shape. Round 7: the strand-dependent form of the pre-order key is a construct of its own (C14.6). Round 8: --sequentialityScore / --segmentJoinMultiplier keep the pinned option types (C14.9). Round 11: (key, segment) tuples are never sorted without a key function (C14.10). Round 12: the chain is never read out of a set (C14.11).",
         note="Assumes segmentJoinMultiplier >= 0 (not validated by args.py: observation O6). Optimality over all subsets is declined.",
         tech="static analysis: sign abstract interpretation (R-SIGN) + term normal forms + path-summary rule for the DP step (explorer over the loop body, heap values compared with the recurrence)",
         ref="DESIGN.md section 4 C14"),
@@ -138,7 +138,7 @@ CHECKS = {
              "`segment - x` with x taken from that side's own conflicting sub-segment; __sub__ and slice return "
              "AlignmentSegment.create over a sub-sequence of self.positions (no element construction or concatenation) with "
              "the same peak; conflicting sub-segments are slices of their own segment over [later.start, earlier.end]; the "
-             "earlier chain member is the left segment; pairwise pass as C01.3. Also: the slice window predicates; each sub-run is cut at the index from its own index table at one shared merge index; the conflict test contains the one necessary disjunct other.start <= self.end. Round 3: definitional clause for the position comparators and PositionWithSiteId ordering; reference-/query-label characteristics agree under reference<->query (sibling agreement); subtracting a segment removes all its positions; interior cuts only under equal label counts. Round 4: cut axis = reference labels iff left peak position > right peak position, strand-free (C15.5 :axis); strict accept test (C15.10, as C13.1); satisfiable isinstance tests for the label getters (C15.11). Round 6: label-table membership (C15.8: every pair and every unpaired label of the side; a test on the scored wrapper is dead), the no-conflict path of checkForConflicts is taken only when the overlap test said no (C15.6), a filter in place of dropwhile in the slice window (C15.4), only neighbours can overlap (C15.12, as C14.2). Round 7: a segment's start / end are its first / last aligned pair in list order (C15.13). Round 8: no early exit from the pairwise pass on the look of a segment (C15.2); the index recorded for a label of a label table is its index in segment.positions, not its ordinal in the table (C15.8 :indexes, judged over two iterations). Round 9: no short cut in the overlap test (C15.6); a segment's start / end is its first / last aligned pair, not its first / last position (C15.13). Round 10: the chainer asks the join score of every predecessor (C15.14, as C14.4). Round 11: a segment's own lists are not altered in place (C15.15).",
+             "earlier chain member is the left segment; pairwise pass as C01.3. Also: the slice window predicates; each sub-run is cut at the index from its own index table at one shared merge index; the conflict test contains the one necessary disjunct other.start <= self.end. Round 3: definitional clause for the position comparators and PositionWithSiteId ordering; reference-/query-label characteristics agree under reference<->query (sibling agreement); subtracting a segment removes all its positions; interior cuts only under equal label counts. Round 4: cut axis = reference labels iff left peak position > right peak position, strand-free (C15.5 :axis); strict accept test (C15.10, as C13.1); satisfiable isinstance tests for the label getters (C15.11). Round 6: label-table membership (C15.8: every pair and every unpaired label of the side; a test on the scored wrapper is dead), the no-conflict path of checkForConflicts is taken only when the overlap test said no (C15.6), a filter in place of dropwhile in the slice window (C15.4), only neighbours can overlap (C15.12, as C14.2). Round 7: a segment's start / end are its first / last aligned pair in list order (C15.13). Round 8: no early exit from the pairwise pass on the look of a segment (C15.2); the index recorded for a label of a label table is its index in segment.positions, not its ordinal in the table (C15.8 :indexes, judged over two iterations). Round 9: no short cut in the overlap test (C15.6); a segment's start / end is its first / last aligned pair, not its first / last position (C15.13). Round 10: the chainer asks the join score of every predecessor (C15.14, as C14.4). Round 11: a segment's own lists are not altered in place (C15.15). Round 12: inherited comparators that delegate are judged as the subclass's comparator (C15.7).",
         note="Re-ordering operators (sorted/reversed) cannot be judged statically and give ANALYSIS-ERROR. 'No shared label "
              "afterwards' and 'pairs outside the overlap are kept' are run-time geometry; declined.",
         tech="static analysis: provenance closure of returned values under shrinking operators (R-EFFECT), role agreement left/right",
@@ -148,7 +148,7 @@ CHECKS = {
              "createPeaks keeps the indices of the peaksCount largest heights under the peaksCount<size guard and indexes "
              "positions, heights and both bases with one index vector; positions/bases are converted with the correlation's own "
              "resolution and window start; getInitialAlignment/refine pass the resolution of the one generator that built both "
-             "vectors, refine offsets by its window start; the bin-centre formula. Also: the scanning loop of vectorisePositions visits every label and uses half-open bins (skip iff position < window start, advance while position >= window start + resolution). Round 3: getSequence passes the requested window unchanged; role lint over the correlation modules. Round 5: both strands correlated for every reference (C16.5); the bit vector is exactly blur(vectorisePositions(...)) (C16.6). Round 6: blur keeps the length - the OR of the shifted copies is cut to len(vector), every shift 1..radius in both directions, fill 0 (C16.7). Round 8: a Peak stores the position and the score handed to its constructor, unconverted (C16.8). Round 9: label positions are sorted while reading (C16.9, as C17.1); the seeds are chosen once over all references (C16.10, as C05.9). Round 10: both strands are correlated with the same settings (C16.11); the worker gives up only without seeds (C16.12). Round 11: a query is correlated only when its whole length fits the reference (C16.13, as C07.G5).",
+             "vectors, refine offsets by its window start; the bin-centre formula. Also: the scanning loop of vectorisePositions visits every label and uses half-open bins (skip iff position < window start, advance while position >= window start + resolution). Round 3: getSequence passes the requested window unchanged; role lint over the correlation modules. Round 5: both strands correlated for every reference (C16.5); the bit vector is exactly blur(vectorisePositions(...)) (C16.6). Round 6: blur keeps the length - the OR of the shifted copies is cut to len(vector), every shift 1..radius in both directions, fill 0 (C16.7). Round 8: a Peak stores the position and the score handed to its constructor, unconverted (C16.8). Round 9: label positions are sorted while reading (C16.9, as C17.1); the seeds are chosen once over all references (C16.10, as C05.9). Round 10: both strands are correlated with the same settings (C16.11); the worker gives up only without seeds (C16.12). Round 11: a query is correlated only when its whole length fits the reference (C16.13, as C07.G5). Round 12: the second pass receives the reference list as the first pass did (C16.14, as C08.13).",
         note="Exactness of vectorisePositions/blur as a whole for all (start, end, resolution, radius) is arithmetic on run-time values; declined (only the shape of the scanning loop is decided).",
         tech="static analysis: order-operator normal forms (R-TERM), sibling agreement across zipped arrays, unit flow (R-FLOW)",
         ref="DESIGN.md section 4 C16"),
@@ -180,7 +180,7 @@ CHECKS = {
         text="Static rules on the sv/ scripts: every path through one iteration of the clustering loop consumes the call exactly "
              "once (merge: count+1 and id appended under the (type,chromosome) guard with start<-min, stop<-max; or new cluster "
              "with count 1); both finders compute Length as reference gap minus query gap and label 'insertion' exactly when it "
-             "is negative; producer record slots, consumer indices, header columns and the sort key agree. Also: a list key / type label chosen by a helper's conditional expression is followed into the helper. Round 3: every call reaches cluster_indels and every cluster the file (sorting only). Round 4 / mutation campaign: merges keep the ids of the cluster; clustering guarded by non-emptiness only; both dictionary lists clustered, every cluster line written; no module-level state in the sv scripts (C20.6). Round 5: the maps hold every label of the file (C20.7). Round 6: header line read through module constants. Round 7: read_csv keywords (C20.7). Round 8: a record is appended only where its coordinates were computed on every path of the current loop iteration (definite assignment, C20.5 :same-iteration). Round 9: every path of write_indel_file clusters both lists (C20.4). Round 10: reference and query maps are separate tables (C20.8). Round 11: the breakage pair recorded by the molecule finder is a pair of the joined record with its own index (C20.9; fix F9); the part walked is chosen by comparing first pairs (C20.10).",
+             "is negative; producer record slots, consumer indices, header columns and the sort key agree. Also: a list key / type label chosen by a helper's conditional expression is followed into the helper. Round 3: every call reaches cluster_indels and every cluster the file (sorting only). Round 4 / mutation campaign: merges keep the ids of the cluster; clustering guarded by non-emptiness only; both dictionary lists clustered, every cluster line written; no module-level state in the sv scripts (C20.6). Round 5: the maps hold every label of the file (C20.7). Round 6: header line read through module constants. Round 7: read_csv keywords (C20.7). Round 8: a record is appended only where its coordinates were computed on every path of the current loop iteration (definite assignment, C20.5 :same-iteration). Round 9: every path of write_indel_file clusters both lists (C20.4). Round 10: reference and query maps are separate tables (C20.8). Round 11: the breakage pair recorded by the molecule finder is a pair of the joined record with its own index (C20.9; fix F9); the part walked is chosen by comparing first pairs (C20.10). Round 12: a breakage recorded under a membership test with the pair's index in the part is reported (C20.9).",
         note="Interval cover for unsorted input and Length averaging are declined.",
         tech="static analysis: exactly-one-consume path rule (R-PATH) + table agreement (R-TABLE) + term normal forms",
         ref="DESIGN.md section 4 C20"),
@@ -240,7 +240,7 @@ def main():
         "checks": checks,
         "notes": "All checks: exit 0 = every rule instance holds; exit 1 + 'VIOLATION property=<id> replay=<path>' = a recognised "
                  "construct deviates; exit 2 + 'ANALYSIS-ERROR ...' = anchor vanished / idiom not recognised (never a VIOLATION "
-                 "line). Thirteen genuine defects were repaired in /repo with 'fix:' commits (F1-F13; F8-F13 were reported by the round-11 sub-agents on the unchanged checkout); two more (K1: C08, join of "
+                 "line). Fourteen genuine defects were repaired in /repo with 'fix:' commits (F1-F14; F8-F14 were reported by the round-11 and round-12 sub-agents on the unchanged checkout); two more (K1: C08, join of "
                  "multi-segment records; K2: C01, a chain member emptied by conflict resolution shields its neighbours) are recorded "
                  "un-repaired as known findings: their checks print a KNOWN-FINDING line and exit 0 (see known_findings.json and "
                  "DESIGN.md section 5).",
